@@ -24,6 +24,16 @@ T = {
  "C18-hutucker-tiebreak": ("C18", "HuTucker findCompatibleNode prefers the right partner on equal weights", "Hu-Tucker only; specific small tie patterns such as adjacent counts 2 2 1 2 1 among heavier neighbours (not hit by ~4000 random vectors)"),
  "C19-rg-load-words": ("C19", "BitSequenceRG::load computes the word count with uint_len(n,1)", "BitSequenceRG after save/load, n a multiple of 32, n >= 32*factor, vector not all-zero"),
  "C20-repair-no-purge": ("C20", "IRePair::prepare no longer purges frequency-1 pairs from the heap", "no non-terminator pair occurs twice and the first string has one symbol: the first pair (x,0) becomes a rule"),
+ "W2_C02_rpdac_id32": ("C02", "RPDAC extract narrows the ID to 32 bits before the range test", "RPDAC only; an ID m*2^32+k with m >= 1 and 1 <= k <= n (2^32+1 ...) returns member k instead of NULL; 0, n+1, 2^32, SIZE_MAX stay correct"),
+ "W2_C04_rpdac_last": ("C04", "RPDAC locatePrefix starts the right-limit search with the exclusive bound at the last member", "RPDAC only; the last member of the dictionary matches the pattern together with at least one other member"),
+ "W2_C06_xbw_overread": ("C06", "XBW loader reads the last bitmap with (nodes+1)/32+2 words instead of nodes/32+2", "XBW only; trie node count = 31 mod 32 (about one input set in 32); all answers stay right, only the stream position after load / a following image shows it"),
+ "W2_C09_unlocked_pushback": ("C09", "producer reserves the block slot (parts.push_back) without the mutex the workers store under", "a worker finishes a block while the producer's push_back is reallocating the vector: the store goes to the old buffer and the block stays null; needs hundreds of blocks under real threads (atomic under a scheduler that pre-empts at synchronisation calls only)"),
+ "W2_C10_stop_idle_notify": ("C10", "stop_all_workers samples queue.empty() before setting the stop flags and notifies only if it was empty", "stop called while a task is still queued; every worker goes to sleep between the sample and the flags: wait_workers never returns"),
+ "W2_C12_hashbdh_load": ("C12", "HashBdh::load compacts one cell too few", "HASHRPF / HASHHF loaded with hash representation 2 and n >= 2: the member with ID n is not found and extract(n) returns string 1; representations 1 and 3 unaffected"),
+ "W2_C13_blocks_single": ("C13", "IteratorDictStringHRPDACBlocks advances to the next block with a modulo test", "HASHRPDACBlocks extractTable when a block other than the last holds exactly one string (cut size below a string length): the scan ends there"),
+ "W2_C14_rpfc_shared_buf": ("C14", "IteratorDictStringRPFC takes its decode buffer from a process-wide pool keyed by maxlength", "two live RPFC iterators of dictionaries with the same maxlength drained in staggered / different order: shared-prefix bytes come from the other iterator; one iterator alone is right"),
+ "W2_C17_vbyte5": ("C17", "VByte::decode stops after sizeof(uint)=4 bytes", "values >= 2^28 (five-byte codes): top four bits dropped and byte counts disagree"),
+ "W2_C19_rrr_rank": ("C19", "BitSequenceRRR::rank1 picks the sampled superblock of i+1", "BitSequenceRRR, position i with (i+1) mod (15*sample_rate) == 0 and a one in the last block of that superblock: rank1/rank0 wrong (select asserts)"),
 }
 for d in sorted(os.listdir(S)):
     p = os.path.join(S, d)
@@ -47,4 +57,4 @@ for d in sorted(os.listdir(S)):
             "checks_run": auto.get("checks_run", []), "caught_by_quick_tier": bool(caught)}
     meta.update(extra)
     json.dump(meta, open(os.path.join(p, "meta.json"), "w"), indent=1)
-    print(d, prop, "caught" if caught else "NOT CAUGHT / not run")
+    print(d, prop, "caught" if meta["caught_by_quick_tier"] else "NOT CAUGHT / not run")
